@@ -371,6 +371,78 @@ fn main() {
         t
     });
 
+    // S3a: exact multiples of LONG divisors (more digits than the precision): a = q*b with q of P-1..P+2 digits,
+    // and q with P+1 digits ending in 5 (an exact tie at the last kept digit)
+    let mut s3a: Vec<(Dec, Dec)> = vec![];
+    let long_dens: Vec<BigInt> = vec![
+        big(&filler_digits(run.seed(), 7121, pl + 21)),
+        big(&filler_digits(run.seed(), 7125, pl + 25)),
+        big(&filler_digits(run.seed(), 7200, 2 * pl)),
+        pow10(pl as u64 + 40) + 1,
+        pow10(pl as u64 + 19) - 1,
+        big(&filler_digits(run.seed(), 7022, 22)),
+    ];
+    for den in long_dens.iter() {
+        for qlen in [pl - 1, pl, pl + 1, pl + 2] {
+            for (_, qd) in patterns(qlen, run.seed()) {
+                let q = big(&qd);
+                s3a.push((Dec { n: &q * den, s: 7 }, Dec { n: den.clone(), s: 0 }));
+                s3a.push((Dec { n: -(&q * den), s: 0 }, Dec { n: den.clone(), s: 12 }));
+                // the same quotient produced by the digit loop instead of the first integer division
+                s3a.push((Dec { n: &q * den, s: 0 }, Dec { n: den * pow10(qlen as u64 - 1), s: 0 }));
+            }
+        }
+        // exact ties: q has P+1 digits, the last one is 5
+        for (_, qd) in patterns(pl, run.seed()) {
+            let q5 = big(&format!("{}5", qd));
+            s3a.push((Dec { n: &q5 * den, s: 0 }, Dec { n: den.clone(), s: 0 }));
+            s3a.push((Dec { n: &q5 * den, s: 3 }, Dec { n: -den.clone(), s: 0 }));
+            s3a.push((Dec { n: &q5 * den, s: 0 }, Dec { n: den * pow10(pl as u64), s: 0 }));
+            s3a.push((Dec { n: -(&q5 * den), s: 5 }, Dec { n: den * pow10(pl as u64 + 3), s: 1 }));
+        }
+    }
+    run.bound("S3a_long_divisor_cases", s3a.len());
+    run.par("S3a exact multiples and ties of long divisors", s3a.len(), |i| {
+        let mut t = Tally::default();
+        t.states += 1;
+        t.nontrivial += 4;
+        check_dec(&run, &s3a[i].0, &s3a[i].1, &forms, &mut t);
+        t
+    });
+
+    // S3b: remainders next to den/2 at the rounding position, with long numerator tails:
+    // a = (q*den + r)*10^k + t,  r in {floor(den/2), floor(den/2)+1},  t around 10^k/2
+    let mut s3b: Vec<(Dec, Dec)> = vec![];
+    let two64: BigInt = BigInt::one() << 64usize;
+    let dens: Vec<BigInt> = vec![BigInt::from(3), BigInt::from(7), BigInt::from(999), pow10(20) + 39, &two64 + 1, &two64 - 1, (&two64 << 3usize) + 5, pow10(40) - 1];
+    for den in dens.iter() {
+        for qlen in [pl - 1, pl, pl + 1, pl + 21] {
+            for (_, qd) in patterns(qlen, run.seed()).into_iter().take(3) {
+                let q = big(&qd);
+                let half: BigInt = den / 2;
+                for r in [half.clone(), &half + 1, BigInt::from(0), den - 1] {
+                    for k in [0u64, 1, 40, 150, 300, 700] {
+                        let p10 = pow10(k);
+                        let ts: Vec<BigInt> = if k == 0 { vec![BigInt::from(0)] } else { vec![BigInt::from(0), &p10 / 2 - 1, &p10 / 2, &p10 / 2 + 1, &p10 - 1] };
+                        for t in ts {
+                            let a = (&q * den + &r) * &p10 + t;
+                            s3b.push((Dec { n: a.clone(), s: k as i128 }, Dec { n: den.clone(), s: 0 }));
+                            s3b.push((Dec { n: -a, s: 3 }, Dec { n: den.clone(), s: 5 }));
+                        }
+                    }
+                }
+            }
+        }
+    }
+    run.bound("S3b_near_half_cases", s3b.len());
+    run.par("S3b near-half remainders, long numerator tails", s3b.len(), |i| {
+        let mut t = Tally::default();
+        t.states += 1;
+        t.nontrivial += 4;
+        check_dec(&run, &s3b[i].0, &s3b[i].1, &forms, &mut t);
+        t
+    });
+
     // S4: |a| << |b| and >>; equal unscaled integers with different scales
     let lens: Vec<usize> = tier.pick(vec![1, 19, 20, 300], vec![1, 19, 20, 99, 100, 101, 300, 2000]);
     run.bound("S4_digit_lengths", json!(lens));
